@@ -67,3 +67,23 @@ def raised_in_library(exc):
         return False
     here = os.path.dirname(os.path.abspath(__file__))
     return not os.path.abspath(last).startswith(here)
+
+
+def scrub_all_models():
+    """Harness hygiene (not an oracle): drop solver nodes cached on ANY library model object still alive in the
+    process - also objects no longer reachable from a live randobj (removed list elements, objects of finished
+    cases).  pyboolector nodes must be released by reference counting, never by the cycle collector (its tp_clear
+    order crashes the interpreter), so nothing may hold one when a case's garbage is collected."""
+    import gc
+    n = 0
+    for o in gc.get_objects():
+        t = type(o)
+        if t.__module__.startswith("vsc.model."):
+            d = getattr(o, "__dict__", None)
+            if not d:
+                continue
+            for a in ("var", "sum_expr_btor", "product_expr_btor", "node", "btor"):
+                if d.get(a) is not None and type(d[a]).__module__.startswith("pyboolector"):
+                    d[a] = None
+                    n += 1
+    return n
